@@ -839,7 +839,9 @@ fn seeds(rng: &mut Rng, n: usize, nbig: usize) -> Vec<(Vec<Seg>, usize)> {
     // fixed seeds. Unicode classes in header values (white space that is not SP / HTAB is part of the value),
     // three hundred chunks, and the coding name spelled "Chunked"
     let uni = ["x-nbsp: \u{a0}lead and trail\u{a0}", "x-nel: \u{85}x\u{2028}y", "x-wide: \u{3000}\u{1680}z", "x-digits: \u{663}\u{ff11}\u{b2}\u{bd}",
-               "x-case: \u{df}\u{130}\u{fb01}", "x-c1: a\u{80}\u{9f}\u{7f}b", "x-comb: e\u{301}\u{e000}"];
+               // (no DEL: 0x7F is neither VCHAR nor obs-text, a response carrying it is not valid HTTP and may be refused - it was
+               // in this list until a property-preserving parser that refuses control bytes in the head raised an alarm, round 8)
+               "x-case: \u{df}\u{130}\u{fb01}", "x-c1: a\u{80}\u{9f}b", "x-comb: e\u{301}\u{e000}"];
     let mut segs = vec![Seg::new("status", "", 200)];
     for h in uni.iter() {
         segs.push(Seg::new("hdr", h, 0));
